@@ -598,7 +598,7 @@ func (g *c20gen) host() (string, string) {
 	case 15:
 		return g.longname(g.pick2(252, 253, 254, 255), g.n(2) == 0), "longname"
 	case 16:
-		return g.pick("localhost", "[", "]", "a:b", "[a]x", "[a]", "[1.2.3.4]", "[localhost]", "[]", "[[::1]]", "[::1]]", "x_y", "a b", ".", "..", "a..b", "-a.b", "a-.b", "a.1", "1.a", "A.B", "%", "a%b", "1.2.3.4%x", "/", "a/b", ":"), "junk"
+		return g.pick("localhost", "[", "]", "a:b", "[a]x", "[a]", "[1.2.3.4]", "[localhost]", "[]", "[[::1]]", "[::1]]", "[://]", "[a://b]", "[:://:1]", "[1://2]", "a://b", "x_y", "a b", ".", "..", "a..b", "-a.b", "a-.b", "a.1", "1.a", "A.B", "%", "a%b", "1.2.3.4%x", "/", "a/b", ":"), "junk"
 	case 17, 18:
 		return g.utf8host(), "utf8"
 	case 19:
@@ -662,6 +662,12 @@ func (g *c20gen) address() (string, string) {
 		sp = g.pick(":/", "//", "://://", "", ":///", "::/", ":/:/")
 	}
 	ho, kind := g.host()
+	if strings.HasPrefix(ho, "[") && len(ho) >= 2 && g.n(12) == 0 {
+		// a second separator inside the brackets (SplitHostPort alone would accept the host)
+		i := 1 + g.n(len(ho)-1)
+		ho = ho[:i] + "://" + ho[i:]
+		kind += "+sep"
+	}
 	s := t + sp + ho
 	if g.n(15) != 0 {
 		s += ":" + g.port()
@@ -777,6 +783,7 @@ func c20generate(c *h.Ctx, yield func(*h.Case)) {
 	for _, t := range []string{"tcp", "tls", "local", "udp", "", "TCP", "tcp:", "wrong"} {
 		for _, ho := range []string{"", "127.0.0.1", "1.2.3", "256.1.1.1", "01.2.3.4", "::1", "[::1]", "[::]", "[fe80::1%eth0]", "[1.2.3.4]",
 			"localhost", "a.b", "a.b.", "a..b", "-a.b", "a-.b", "a.1", "A.B", "x_y", "K.com", "a.K", "a.İ", "[", "]", "a:b", "[a]x",
+			"[://]", "[a://b]", "[:://:1]", "[::1://]", "a://b", "://",
 			strings.Repeat("a", 63) + ".com", strings.Repeat("a", 64) + ".com", strings.Repeat("a", 63), strings.Repeat("a", 64),
 			strings.Repeat("a.", 126) + "com", strings.Repeat("a.", 126) + "co", strings.Repeat("a.", 126) + "co.", strings.Repeat("a.", 126) + "com."} {
 			if t != "tcp" && len(ho) > 20 {
